@@ -353,12 +353,15 @@ Definition reopen_state (s : state) (fs : list file) (top nf : N) : state :=
 Lemma reopen_inv s bounds nums nf s' :
   do_reopen ucmp s bounds nums nf = Some s' ->
   exists fs top, reopen_files 0 bounds nums (pending_entries ucmp s) = Some (fs, top) /\
-    (forall n, In n nums -> next_file s <= n < nf) /\ strictly_increasing nums = true /\
-    next_file s <= nf /\ s' = reopen_state s fs top nf.
+    (forall n, In n nums -> n < nf /\ forall j g, In g (level_files (levels s) j) -> fnum g < n) /\
+    strictly_increasing nums = true /\
+    (forall j g, In g (level_files (levels s) j) -> fnum g < nf) /\ s' = reopen_state s fs top nf.
 Proof.
   unfold do_reopen.
-  destruct (forallb (fresh_num s) nums && strictly_increasing nums && forallb (fun n => n <? nf) nums
-            && (next_file s <=? nf) && forallb (fun b => b <=? last_seq s) bounds) eqn:G; [|discriminate].
+  destruct (forallb (fun n => forallb (fun f => fnum f <? n) (concat (levels s))) nums
+            && strictly_increasing nums && forallb (fun n => n <? nf) nums
+            && forallb (fun f => fnum f <? nf) (concat (levels s))
+            && forallb (fun b => b <=? last_seq s) bounds) eqn:G; [|discriminate].
   destruct (reopen_files 0 bounds nums (pending_entries ucmp s)) as [[fs top]|] eqn:ER; [|discriminate].
   intros H; injection H as <-.
   apply andb_true_iff in G. destruct G as [G G5].
@@ -367,8 +370,11 @@ Proof.
   apply andb_true_iff in G. destruct G as [G1 G2].
   exists fs, top. split; auto. split; [|split; [|split]]; auto.
   - intros n Hn. pose proof (forallb_In _ _ _ G1 Hn) as H1. pose proof (forallb_In _ _ _ G3 Hn) as H3.
-    unfold fresh_num in H1. cbn beta in H3. lia.
-  - lia.
+    cbn beta in H1, H3. split. lia.
+    intros j g Hg. assert (Hc: In g (concat (levels s))) by (apply In_concat_levels; eauto).
+    pose proof (forallb_In _ _ _ H1 Hc) as H4. cbn beta in H4. lia.
+  - intros j g Hg. assert (Hc: In g (concat (levels s))) by (apply In_concat_levels; eauto).
+    pose proof (forallb_In _ _ _ G4 Hc) as H4. cbn beta in H4. lia.
 Qed.
 
 Lemma reopen_same s bounds nums nf s' : do_reopen ucmp s bounds nums nf = Some s' ->
@@ -407,8 +413,9 @@ Qed.
 
 Lemma reopen_state_SInv s bounds nums nf fs top :
   SInv s -> reopen_files 0 bounds nums (pending_entries ucmp s) = Some (fs, top) ->
-  (forall n, In n nums -> next_file s <= n < nf) -> strictly_increasing nums = true ->
-  next_file s <= nf -> SInv (reopen_state s fs top nf).
+  (forall n, In n nums -> n < nf /\ forall j g, In g (level_files (levels s) j) -> fnum g < n) ->
+  strictly_increasing nums = true ->
+  (forall j g, In g (level_files (levels s) j) -> fnum g < nf) -> SInv (reopen_state s fs top nf).
 Proof.
   intros HI ER Hn Hinc Hnf.
   pose proof (fun e => reopen_entries_sub s bounds nums nf fs top e HI ER) as Hsub.
@@ -418,7 +425,7 @@ Proof.
   assert (Hlf := fun i g => reopen_level_files s fs top nf i g Hl).
   assert (Hpend: forall e, In e (pending_entries ucmp s) -> at_place s PMem e \/ at_place s PImm e).
   { intros e He. apply pending_In in He. destruct He; [right|left]; auto. }
-  assert (Hnum: forall f, In f fs -> next_file s <= fnum f < nf).
+  assert (Hnum: forall f, In f fs -> fnum f < nf /\ forall j g, In g (level_files (levels s) j) -> fnum g < fnum f).
   { intros f Hf. apply Hn. rewrite <- I1. apply in_map; auto. }
   assert (HFN: ForallOrdPairs (fun f g => fnum f < fnum g) fs).
   { apply -> (FOP_map fnum N.lt fs). rewrite I1. apply si_FOP; auto. }
@@ -469,14 +476,14 @@ Proof.
     + destruct p; try congruence; destruct Hlt.
     + destruct p as [| |n|i]; try congruence.
       * cbn in Hlt. destruct Ho as (f0 & Hf0 & Hn0 & _).
-        pose proof (si_num _ _ HI _ _ Hf0). pose proof (Hnum g Hg). lia.
+        pose proof (proj2 (Hnum g Hg) _ _ Hf0). lia.
       * destruct Hlt.
     + eapply (si_rec _ _ HI); eauto.
   - intros e He. apply Hsub in He. apply (si_seq _ _ HI); auto.
   - intros i f Hf. apply Hlf in Hf. unfold s', reopen_state. cbn [next_file].
     destruct Hf as [(_ & Hf & _)|Hf].
     + apply Hnum; auto.
-    + pose proof (si_num _ _ HI _ _ Hf). lia.
+    + apply (Hnf i f Hf).
   - unfold s', reopen_state. cbn [levels]. apply ND_set_level; auto. apply HI.
     + eapply Permutation_NoDup. symmetry. apply Permutation_map. apply add_files_Perm.
       rewrite map_app. apply NoDup_app_iff. split; [|split].
@@ -486,10 +493,10 @@ Proof.
       * intros n H1 H2. apply in_map_iff in H1. destruct H1 as (f & <- & Hf).
         apply filter_In in Hf. destruct Hf as [Hf _].
         apply in_map_iff in H2. destruct H2 as (g & Hgn & Hg).
-        pose proof (si_num _ _ HI _ _ Hg). pose proof (Hnum f Hf). lia.
+        pose proof (proj2 (Hnum f Hf) _ _ Hg). lia.
     + intros f Hf. apply add_files_In in Hf. destruct Hf as [Hf|Hf]; auto.
       right. intros j g _ Hg. apply filter_In in Hf. destruct Hf as [Hf _].
-      pose proof (si_num _ _ HI _ _ Hg). pose proof (Hnum f Hf). lia.
+      pose proof (proj2 (Hnum f Hf) _ _ Hg). lia.
   - intros q [].
   - reflexivity.
 Qed.
